@@ -283,14 +283,16 @@ bool Session::process(const f8String& from)
 
 	try
 	{
-		const f8String::size_type fpos(from.find("34="));
+		// locate the MsgSeqNum field itself: the text "34=" may also occur inside the value of an earlier field
+		static const f8String seqnum_tag { static_cast<char>(default_field_separator), '3', '4', '=' };
+		const f8String::size_type fpos(from.find(seqnum_tag));
 		if (fpos == f8String::npos)
 		{
 			slout_debug << "Session::process throwing for " << from;
 			throw InvalidMessage(from, FILE_LINE);
 		}
 
-		seqnum = fast_atoi<unsigned>(from.data() + fpos + 3, default_field_separator);
+		seqnum = fast_atoi<unsigned>(from.data() + fpos + seqnum_tag.size(), default_field_separator);
 
 		bool retry_plog(false);
 		if (_plogger && _plogger->has_flag(Logger::inbound))
